@@ -94,7 +94,9 @@ EXTRA = [('came', ['/came/from/1', '', '0', ' ']),             # what the applic
          ('acs_cfg', ['all', 'none-for-binding']),               # the SP has / has not an assertion-consumer endpoint configured for the delivering binding
          ('entry', ['authn', 'attrq']),                          # parse_authn_request_response / parse_attribute_query_response (answer to an attribute query, SOAP)
          ('mixed', [False, True]),
-         ('rcpt2', ['same', 'foreign-first', 'foreign-last'])]  # a further bearer confirmation whose Recipient differs from the row's (own endpoint vs foreign)                               # a conformant EncryptedAssertion rides along; the row's conditions sit in a plain Assertion next to it
+         ('rcpt2', ['same', 'foreign-first', 'foreign-last']),
+         ('unsol_spelling', ['bool', 'str']),                    # allow_unsolicited written as a Python bool or as the string "true" / "false" (JSON / YAML style configuration)
+         ('aud_empty', ['no', 'alone', 'beside-me'])]            # an AudienceRestriction that names nobody (alone, or next to one naming the SP)  # a further bearer confirmation whose Recipient differs from the row's (own endpoint vs foreign)                               # a conformant EncryptedAssertion rides along; the row's conditions sit in a plain Assertion next to it
 
 
 def generated_strategy():
@@ -129,13 +131,13 @@ def judge(row):
             pass    # matches the configured pattern
         else:
             reasons.append('Destination is not an own endpoint for the binding and matches no pattern')
-    if row['aud'] in ('other', 'me|other', 'other|me'):
+    if row['aud'] in ('other', 'me|other', 'other|me') or (row.get('aud_empty', 'no') != 'no' and row['aud'] != 'no-conditions'):
         reasons.append('an audience restriction does not list the SP')
     if row['conv'] and (row['rcpt'] == 'foreign' or row.get('rcpt2', 'same') != 'same') and row.get('entry', 'authn') == 'authn':     # the attribute-query entry point takes no conversation info
         reasons.append('Recipient is foreign although conversation info was supplied')
     if reasons:
         return 'reject', reasons
-    ok = (row.get('acs_cfg', 'all') == 'all' and row.get('entry', 'authn') == 'authn' and not row.get('mixed') and row['irt'] == 'match' and row['scd'] == 'match' and row['dest'] in ('own', 'absent') and row['aud'] in ('me', 'none', 'me+other-one', 'no-conditions')
+    ok = (row.get('aud_empty', 'no') == 'no' and row.get('acs_cfg', 'all') == 'all' and row.get('entry', 'authn') == 'authn' and not row.get('mixed') and row['irt'] == 'match' and row['scd'] == 'match' and row['dest'] in ('own', 'absent') and row['aud'] in ('me', 'none', 'me+other-one', 'no-conditions')
           and row['rcpt'] in ('endpoint', 'entity') and row['regex'] in ('unset', 'match') and row.get('rcpt2', 'same') == 'same')
     if ok:
         return 'accept', []
@@ -152,7 +154,7 @@ def run(row):
         # the SOAP decoder re-serialises the body (prefixes change), so third-party signed documents do not survive it;
         # that is a transport limitation outside this property: SOAP rows run unsigned
         row = dict(row, signed=False)
-    opts = {'allow_unsolicited': row['unsol'],
+    opts = {'allow_unsolicited': ('true' if row['unsol'] else 'false') if row.get('unsol_spelling') == 'str' else row['unsol'],
             'acs': [(ACS['post'], world.POST), (ACS['redirect'], world.REDIRECT), (ACS['soap'], world.SOAP), (ACS['artifact'], world.ARTIFACT)]}
     if row.get('acs_cfg') == 'none-for-binding':
         opts['acs'] = [(u, bb) for u, bb in opts['acs'] if bb != BIND[row['binding']]]
@@ -198,6 +200,8 @@ def run(row):
         import re as _re
         ea = _re.search(r'<saml:EncryptedAssertion.*?</saml:EncryptedAssertion>', enc_doc, _re.S).group(0)
         r['extra_assertions_first'] = [ea]
+    if row.get('aud_empty', 'no') != 'no' and a.get('conditions'):
+        a['conditions']['audiences'] = [[]] if row['aud_empty'] == 'alone' else [[spside.SP], []]
     doc = build.render(r, [a], sign_response=1 if row['signed'] else None, encrypt_for=2 if row['enc'] else None)
     came = row.get('came', '/came/from/1')
     outstanding = {'id-req-1': came, 'id-req-2': '/came/from/2'}
